@@ -1462,10 +1462,27 @@ mod convert {
             if self.from_row.op_index() >= max_ops {
                 return Err(ConvertError::UnsupportedLineInstruction);
             }
-            (address / min_len)
+            let ops = (address / min_len)
                 .checked_mul(max_ops)
                 .and_then(|ops| ops.checked_add(self.from_row.op_index()))
                 .ok_or(ConvertError::UnsupportedLineInstruction)?;
+            // The writer can only advance. `DW_LNS_fixed_advance_pc` resets the op_index,
+            // so a row can be at the same address as the previous row with a lower op_index.
+            if self.program.in_sequence() {
+                let prev_row = &self.program.prev_row;
+                // A pending `DW_LNE_set_address` resets the op_index of the previous row.
+                let prev_op_index = if self.address.is_some() {
+                    0
+                } else {
+                    prev_row.op_index
+                };
+                let prev_ops = (prev_row.address_offset / min_len)
+                    .checked_mul(max_ops)
+                    .and_then(|ops| ops.checked_add(prev_op_index));
+                if prev_ops.map_or(true, |prev_ops| ops < prev_ops) {
+                    return Err(ConvertError::UnsupportedLineInstruction);
+                }
+            }
             Ok(())
         }
 
